@@ -2,6 +2,7 @@
 from vlib.plan import CH, K
 
 FUNCTIONS = [
+    "safeds_stubgen.api_analyzer._ast_visitor:MyPyAstVisitor._check_publicity_in_reexports",
     "safeds_stubgen._helpers:is_internal",
     "safeds_stubgen.api_analyzer._ast_visitor:MyPyAstVisitor._is_public",
     "safeds_stubgen.stubs_generator._stub_string_generator:StubsStringGenerator._create_module_string",
